@@ -16,11 +16,19 @@ import world as W
 _bdir = None
 
 
-def bdir():
+_bdirs = {}
+
+
+def bdir(flavour=None):
+    """build directory of the harness for /repo's current tree; flavour "uchar" = compiled with -funsigned-char"""
     global _bdir
-    if _bdir is None:
-        _bdir = W.build_dir()
-    return _bdir
+    if not flavour:
+        if _bdir is None:
+            _bdir = W.build_dir()
+        return _bdir
+    if flavour not in _bdirs:
+        _bdirs[flavour] = W.build_dir(flavour)
+    return _bdirs[flavour]
 
 
 def side_ip(sess, side):
@@ -46,7 +54,7 @@ def execute(spec, want=("C01",), keep_trace=False):
     res = {"spec": spec, "mon": {}, "stats": {}, "san": None, "hang": False, "error": None}
     sess = None
     try:
-        sess = scen.Session(bdir(), seed=seed, relay=relay, tag="r%d" % seed, **spec.get("sess", {}))
+        sess = scen.Session(bdir(spec.get("flavour")), seed=seed, relay=relay, tag="r%d" % seed, **spec.get("sess", {}))
         w = sess.w
         if "C16" in want or "state" in want or "TSRV" in want or "C02" in want:
             w.dump_users = True
@@ -170,7 +178,12 @@ def fit_fragments(w, sess, side, dst, kind, rng, ident):
     if not us or us[0]["conn"] == 0:
         return None
     unit = frag_unit(w, sess, side)
-    target = int(n) * unit - int(slack)
+    if unit is None:
+        return None
+    if slack.startswith("t"):
+        target = (int(n) - 1) * unit + int(slack[1:])       # "t<k>": the last fragment carries exactly k bytes
+    else:
+        target = int(n) * unit - int(slack)
     if target < 60 or target > 60000:
         return None
     size = max(8, target - 60)
@@ -590,6 +603,14 @@ def abs_c08(w, sess, frames, t0, hs_len, res):
         evs.append({"e": "Wire", "L": L, "dom": dom, "name": list(name), "kind": kind})
     res["stats"]["wire_names"] = len(evs)
     evs += _extract_events(w, sess, res)
+    if res["spec"].get("uppackets") and res["stats"].get("handshake"):
+        # clean path: every upstream packet that fits 16 fragments comes out of the server's tun device - in particular
+        # those whose last chunk carries a single byte (the shortest data part a name can have)
+        written = {e["data"] for e in w.trace if e["ev"] == "TunWrite" and e["inst"] == "S"}
+        for fr, idx in frames.items():
+            spec_p = res["spec"]["pkts"][idx - 1]
+            if spec_p[1] != "S" and spec_p[3].startswith("frags:"):
+                evs.append({"e": "UpPacket", "kind": spec_p[3], "written": fr in written})
     return evs
 
 
